@@ -255,3 +255,71 @@ Proof.
   rewrite (sel_full lim (length out)) in Hperm by lia. exact Hperm.
 Qed.
 End World.
+
+(** * the loader run is defined: no fuel runs out, nothing is out of range *)
+Section Total.
+Variable opq : nat -> item -> info -> res (item * info).
+Variables (p : pcfg) (g : bool) (b : base) (seed epoch : N).
+Variables (files : list (list line)).
+Variables (sort shuffle : bool) (prefetch blim : nat) (ty : limit_type).
+Notation run := (loader_run opq p g b seed epoch).
+
+(** sequential and interleaved: whenever the constructors accept and no pipeline call panics, the run returns batches *)
+Lemma loader_run_total_nw : forall s lim skip ff rank W, s <> Weighted -> pcfg_ok p = true -> files <> [] ->
+  (N.of_nat (total_len files) < 9223372036854775807)%N ->
+  exists out, gen_lines s (seed + epoch)%N files = Some (C07_Model.Ok out) /\
+    (loader_panics opq p g b seed epoch (data_of_out out) lim skip ff rank W = false ->
+     exists bs, run s files lim skip ff rank W sort shuffle prefetch blim ty = LOk (min_items lim skip (length out)) bs).
+Proof.
+  intros s lim skip ff rank W Hs Hok Hne Hfit.
+  destruct (gen_total_nw_l s (fun _ _ => 0) files Hne Hs) as [out Hout].
+  assert (Hgen : gen_lines s (seed + epoch)%N files = Some (C07_Model.Ok out)).
+  { unfold gen_lines. destruct s; [rewrite Hout; reflexivity|rewrite Hout; reflexivity|congruence]. }
+  exists out. split; [exact Hgen|]. intros Hp.
+  destruct (gen_lines_items s _ files out Hne ltac:(unfold RNG_Model.p64; lia) Hgen) as (_ & Ho & _).
+  assert (Hf : fits (length (loader_items (data_of_out out) (pipe_fn opq p g b seed epoch) lim skip ff rank W))).
+  { unfold fits. pose proof (loader_items_length (data_of_out out) (pipe_fn opq p g b seed epoch) lim skip ff rank W) as Hl.
+    rewrite data_of_out_length in Hl.
+    assert (Hl' : length (loader_items (data_of_out out) (pipe_fn opq p g b seed epoch) lim skip ff rank W) <= total_len files)
+      by (rewrite <- Ho; exact Hl).
+    lia. }
+  destruct (seeded_total_l tsize sort shuffle prefetch blim ty (seed + epoch)%N _ Hf) as [bs Hbs].
+  exists bs. unfold loader_run. rewrite Hok. cbn [negb]. rewrite Hgen, Hp, Hbs, data_of_out_length. reflexivity.
+Qed.
+
+(** weighted: the same whenever the rejection sampler of the generator stays within its fuel *)
+Lemma loader_run_total_w : forall lim skip ff rank W r, pcfg_ok p = true -> files <> [] ->
+  existsb (@C07_Model.is_nil line) files = false ->
+  (N.of_nat (total_len files) < 9223372036854775807)%N ->
+  gen_lines Weighted (seed + epoch)%N files = Some r ->
+  exists out, r = C07_Model.Ok out /\
+    (loader_panics opq p g b seed epoch (data_of_out out) lim skip ff rank W = false ->
+     exists bs, run Weighted files lim skip ff rank W sort shuffle prefetch blim ty = LOk (min_items lim skip (length out)) bs).
+Proof.
+  intros lim skip ff rank W r Hok Hne Hnil Hfit Hgen.
+  destruct (gen_total_seeded_l (seed + epoch)%N files r Hne Hnil ltac:(unfold RNG_Model.p64; lia) Hgen) as [out ->].
+  exists out. split; [reflexivity|]. intros Hp.
+  destruct (gen_lines_items Weighted _ files out Hne ltac:(unfold RNG_Model.p64; lia) Hgen) as (_ & Ho & _).
+  assert (Hf : fits (length (loader_items (data_of_out out) (pipe_fn opq p g b seed epoch) lim skip ff rank W))).
+  { unfold fits. pose proof (loader_items_length (data_of_out out) (pipe_fn opq p g b seed epoch) lim skip ff rank W) as Hl.
+    rewrite data_of_out_length in Hl.
+    assert (Hl' : length (loader_items (data_of_out out) (pipe_fn opq p g b seed epoch) lim skip ff rank W) <= total_len files)
+      by (rewrite <- Ho; exact Hl).
+    lia. }
+  destruct (seeded_total_l tsize sort shuffle prefetch blim ty (seed + epoch)%N _ Hf) as [bs Hbs].
+  exists bs. unfold loader_run. rewrite Hok. cbn [negb]. rewrite Hgen, Hp, Hbs, data_of_out_length. reflexivity.
+Qed.
+End Total.
+
+(** * the executable statements of the two new lines hold of the model's own output *)
+Lemma check_preproc_run : forall v, kind v = (-1)%Z ->
+  cfg_dom (v_cfg (v_nth 1 v)) = true -> has_opaque (v_cfg (v_nth 1 v)) = false ->
+  check_C08x v (run_C08x v) = true.
+Proof.
+  intros v Hk Hd Ho. unfold check_C08x, run_C08x. rewrite Hk. cbn [Z.eqb Pos.eqb]. unfold run_preproc.
+  rewrite Hd, Ho. cbn [negb orb]. destruct (negb (cfg_ok _)); [reflexivity|].
+  destruct (preproc _ _ _ _) as [[x i]| |]; reflexivity.
+Qed.
+
+Lemma check_loader_ok : forall v m bs, check_loader v (L [I 1%Z; nat_v m; list_v (list_v titem_v) bs; I 1%Z; I 1%Z]) = true.
+Proof. reflexivity. Qed.
